@@ -16,6 +16,7 @@
 import PandoraModel.Model.MatchingCost
 import PandoraModel.Model.PyExpr
 import PandoraModel.Generated.KernelsGlue
+import PandoraModel.Generated.KernelsGlueSelfTest  -- the translator's own glue test functions, checked by evaluation
 import PandoraModel.Lemmas.MCIndex
 import Mathlib.Data.Rat.Floor
 import Mathlib.Tactic.Linarith
